@@ -50,7 +50,10 @@ def lib_path(lib):
             # a backslash is an ordinary file-name character here: this file exists, ...
             "bs": "./lib/plug\\libprobe.so",
             # ... this one does not, although a look-alike with a slash does
-            "missing_bs": "./lib/vendor\\nolib.so"}[lib]
+            "missing_bs": "./lib/vendor\\nolib.so",
+            # names that do not end in the platform's extension: a versioned library that exists, and two names that do
+            # not exist although a sibling with the same stem and `.so` does
+            "versioned": "./lib/libprobe_v.so.1", "missing_dll": "./lib/libprobe_a.dll", "missing_noext": "./lib/libprobe_a"}[lib]
 
 
 def describe(tag, args):
@@ -75,12 +78,14 @@ def build_program(case):
             L.append("\t%s %s" % (ins, hrb_quote(src)))
         L.append("\tcall_lib %s %s" % (hrb_quote(lib_path(c["lib"])), c["sym"]))
         L += ['\tprintn "*"', "\tvoid"]
-        tag = {"a": "A", "b": "B", "bare": "A", "bs": "B"}.get(c["lib"])
+        tag = {"a": "A", "b": "B", "bare": "A", "bs": "B", "versioned": "B"}.get(c["lib"])
         fault = c.get("fault")
         if c["lib"] == "missing":
             fail = {"at": i, "needle": "nonexistent_probe.so"}
         elif c["lib"] == "missing_bs":
             fail = {"at": i, "needle": "nolib.so"}
+        elif c["lib"] in ("missing_dll", "missing_noext"):
+            fail = {"at": i, "needle": "libprobe_a"}
         elif fault == "dlopen_null":
             fail = {"at": i, "needle": os.path.basename(lib_path(c["lib"]))}
         elif c["sym"] == "probe_absent":
@@ -205,7 +210,7 @@ def gen_cases(tier, seed):
         for _ in range(rng.range(1, 4)):
             args = [(k, rng.below(len(VALUES[k]))) for k in [rng.choice(KINDS) for _ in range(rng.range(0, 6))]]
             sym = rng.weighted([("probe_echo", 5), ("probe_none", 2), ("probe_first", 2), ("probe_last", 2), ("probe_raise", 1), ("probe_absent", 1)])
-            lib = rng.weighted([("a", 5), ("b", 5), ("bare", 2), ("missing", 1), ("bs", 2), ("missing_bs", 1)])
+            lib = rng.weighted([("a", 5), ("b", 5), ("bare", 2), ("missing", 1), ("bs", 2), ("missing_bs", 1), ("versioned", 2), ("missing_dll", 1), ("missing_noext", 1)])
             if sym in ("probe_first", "probe_last") and not args and rng.chance(2, 3):
                 args = [("int", 0)]
             calls.append({"lib": lib, "sym": sym, "args": args})
@@ -228,6 +233,7 @@ def run_case(case):
     os.symlink(PROBE_A, os.path.join(world, "lib", "libprobe_a.so"))
     os.symlink(PROBE_B, os.path.join(world, "lib", "libprobe_b.so"))
     os.symlink(PROBE_B, os.path.join(world, "lib", "plug\\libprobe.so"))
+    os.symlink(PROBE_B, os.path.join(world, "lib", "libprobe_v.so.1"))
     os.makedirs(os.path.join(world, "lib", "vendor"))
     os.symlink(PROBE_A, os.path.join(world, "lib", "vendor", "nolib.so"))      # the look-alike decoy
     os.mkdir(os.path.join(world, "search"))
